@@ -241,3 +241,29 @@ package packet
 //@   modifies[C13] nothing
 //@   ensures[C04] inWindow(r, address, 4) <==> err == nil
 //@   ensures[C04] err == nil ==> float64bits(v) == dec64(r.data, regOff(r,address), effOrder(r, byteOrder))
+
+//@ func (r Registers) String(address uint16, length uint8) (res string, err error)
+//@   requires validRegs(r)
+//@   safety[C04,C10]
+//@   noOverread[C04]
+//@   modifies[C13] nothing
+//@   ensures[C04] inWindow(r, address, (int(length)+1)/2) <==> err == nil
+//@   ensures[C04] err == nil ==> len(res) <= int(length) && forall k in 0..len(res) :: char(res, k) == int32(strByte(r, address, r.defaultByteOrder, k)) && strByte(r, address, r.defaultByteOrder, k) != 0
+//@   ensures[C04] err == nil && len(res) < int(length) ==> strByte(r, address, r.defaultByteOrder, len(res)) == 0
+
+//@ func (r Registers) StringWithByteOrder(address uint16, length uint8, byteOrder ByteOrder) (res string, err error)
+//@   requires validRegs(r)
+//@   safety[C04,C10]
+//@   noOverread[C04]
+//@   modifies[C13] nothing
+//@   ensures[C04] inWindow(r, address, (int(length)+1)/2) <==> err == nil
+//@   ensures[C04] err == nil ==> len(res) <= int(length) && forall k in 0..len(res) :: char(res, k) == int32(strByte(r, address, effOrder(r, byteOrder), k)) && strByte(r, address, effOrder(r, byteOrder), k) != 0
+//@   ensures[C04] err == nil && len(res) < int(length) ==> strByte(r, address, effOrder(r, byteOrder), len(res)) == 0
+//@   loop 0
+//@     modifies rawBytes
+//@     invariant 1 <= i && len(rawBytes) == endIndex - startIndex && len(rawBytes)%2 == 0 && len(rawBytes) <= 256
+//@     invariant forall k in 0..len(rawBytes) :: rawBytes[k] == ite((k|1) < i, r.data[startIndex + (k^1)], r.data[startIndex + k])
+//@   loop 1
+//@     modifies builder
+//@     invariant -1 <= rangeindex && rangeindex < int(length) && sblen(builder) == rangeindex+1
+//@     invariant forall k in 0..rangeindex+1 :: sbchar(builder, k) == int32(rawBytes[k]) && rawBytes[k] != 0
